@@ -36,9 +36,12 @@ def classify(src):
     if head == 'include_bytes':
         return dict(m, kind='gap', marker=toks[1].split('.')[0])
     if head == 'align':
-        return dict(m, kind='align', n=int(toks[1], 0))
+        return dict(m, kind='align', n=int(toks[1], 0) if not toks[1].startswith('@') else toks[1].strip('@'))
     if head == 'string':
-        return dict(m, kind='data', size=len(src.split(None, 1)[1].encode('utf-8')))
+        import codecs
+        text = src.split(' ', 1)[1] if ' ' in src else ''
+        text = codecs.decode(text.encode('latin-1', 'backslashreplace'), 'unicode_escape')   # backslash escapes, then UTF-8
+        return dict(m, kind='data', size=len(text.encode('utf-8')), labels=[])
     if head in SEQ_SIZE:
         return dict(m, kind='data', size=SEQ_SIZE[head] * (len(toks) - 1))
     if head in SH_SIZE:
